@@ -378,6 +378,68 @@ def order_duals(rep):
     rep.floor("abstract inputs of the order routines evaluated", n, 72)
 
 
+def carry_chain(rep):
+    """Schoolbook addition, subtraction and multiplication run a carry through the digits: each round of the digit loop is one
+    PlusStep/MinusStep/TimesStep(kout, r, ..., kin) with kout and kin the same variable.  The step does two things -- it
+    computes the digit and it deposits the incoming carry -- so a round that is skipped (a `continue` on a zero digit, a step
+    moved under an `if`) leaves the carry of the previous round to be added one place too high.  For every chained step inside
+    a loop: nothing but blocks lies between the step and its loop, and no statement before it in the round can leave the round."""
+    f = common.extract("bigint.c", "runtime", all_trees=True)
+    n = 0
+    for name, fn in sorted(f.funcs.items()):
+        if "body" not in fn or not fn.get("file", "").endswith("bigint.c"):
+            continue
+        par = common.parents(fn["body"])
+        for x in walk(fn["body"]):
+            m = x.get("mac") or ""
+            if not (m.endswith("Step") and x["k"] == "CompoundStmt" and (par.get(x["id"]) or {}).get("mac") != m):
+                continue
+            sts = [c for c in x["c"] if c is not None]
+            if not sts or sts[0]["k"] != "DeclStmt" or sts[-1]["k"] != "BinaryOperator" or sts[-1]["op"] != "=":
+                raise AnalysisBroken("%s:%d: the expansion of %s is no longer `{ sum = a op b + kin; ...; kout = carry; }`" % (name, x["l"], m))
+            kout = common.render(strip(sts[-1]["c"][0]))
+            init = sts[0]["decls"][0].get("init")
+            chained = init is not None and any(y["k"] == "DeclRefExpr" and y["n"] == kout for y in walk(init)) and \
+                (strip(sts[-1]["c"][0]) or {}).get("k") == "DeclRefExpr"
+            # the loop of this step
+            cur, between, loop = x, [], None
+            while cur["id"] in par:
+                p_ = par[cur["id"]]
+                if p_["k"] in ("ForStmt", "WhileStmt", "DoStmt"):
+                    loop = p_
+                    break
+                between.append((p_, cur))
+                cur = p_
+            if loop is None or not chained:
+                continue
+            n += 1
+            key = "carry-chain:%s:%s@%d" % (name, m, n)
+            where = "bigint.c:%d (%s)" % (x["l"], name)
+            cond = [p_ for p_, _ in between if p_["k"] != "CompoundStmt"]
+            leaves = []
+            for p_, child in between:
+                if p_["k"] == "CompoundStmt":
+                    for st in p_["c"]:
+                        if st is child:
+                            break
+                        leaves += [y for y in walk(st) if y["k"] in ("ContinueStmt", "BreakStmt", "GotoStmt", "ReturnStmt")]
+            if cond:
+                rep.violation("N8", key, where,
+                              "the step that carries `%s` from digit to digit runs under a condition (%s at line %d) inside its loop: in a "
+                              "round where it is skipped the incoming carry is not deposited and is added one place too high in the "
+                              "next round (a product with a zero digit inside the longer operand comes out wrong)"
+                              % (kout, cond[0]["k"], cond[0]["l"]))
+            elif leaves:
+                rep.violation("N8", key, where,
+                              "a `%s` at line %d can end the round before the step that carries `%s`: the carry of the previous round "
+                              "is then not deposited at this digit and is added one place too high in the next round (a product "
+                              "with a zero digit inside the longer operand comes out wrong)"
+                              % (leaves[0]["k"].replace("Stmt", "").lower(), leaves[0]["l"], kout))
+            else:
+                rep.ok("N8", key, sample={"carry": kout})
+    rep.floor("chained carry steps in digit loops", n, 8)
+
+
 def run(tier, only=None):
     rep = common.Report("C11", tier, EXPLANATION)
     c04_builtins.carry_steps(rep, rule="N1")
@@ -397,6 +459,7 @@ def run(tier, only=None):
     modi_precondition(rep)
     qhat_carry(rep)
     order_duals(rep)
+    carry_chain(rep)
     rep.floor("C11 structural obligations", rep.obligations, 15)
     rep.assumptions += ["a call of bintPlus/bintMinus/bintTimes/bintDivide on non-negative operands returns its mathematical result "
                         "(induction on the number of negative operands; the digit-level routines are not analysed)",
